@@ -63,6 +63,7 @@ def _tree_concrete(db, chk, cs):
     node, else 1 + the tallest child."""
     GPU, CPU = ("enum", "DeviceType", "GPU"), ("enum", "DeviceType", "CPU")
     spec = {-1: (-2, [0], CPU), 0: (-1, [1, 2], CPU), 1: (0, [3], CPU), 2: (0, [], CPU), 3: (1, [], GPU)}
+    verdicts = {}
     for meth, attr, want, rule in (("_compute_depth", "depth", {-1: -1, 0: 0, 1: 1, 2: 1, 3: 2}, "C13.R1-depth"), ("_compute_height", "height", {0: 2, 1: 1, 2: 1, 3: 0}, "C13.R1-height")):
         fn = cs.func(f"CallStackGraph.{meth}")
         state = {}
@@ -84,10 +85,16 @@ def _tree_concrete(db, chk, cs):
         chk.ob(rule, f"[abstract run] {meth} on a small concrete tree (a device activity below two host levels, stale values before): every node gets its {attr}", (got == want) if concrete else None, cs.loc(fn),
                found=got if concrete else f"{len(runs)} path(s), values not concrete", accepted=want,
                why="a walk that does not descend into device activities leaves them with the value they had before the tree was re-linked")
+        verdicts[attr] = (got == want) if concrete else None
+    return verdicts
+
+
+_SEM = {}
 
 
 def _depth(db, chk, cs):
-    _tree_concrete(db, chk, cs)
+    _SEM.clear()
+    _SEM.update(_tree_concrete(db, chk, cs))
     rule = "C13.R1-depth"
     ref = f"{CS}:CallStackGraph._compute_depth"
     fn = cs.func("CallStackGraph._compute_depth")
@@ -106,6 +113,8 @@ def _depth(db, chk, cs):
     runs = [r for r in I.explore(ref, lambda I: {"self": Obj("self", cls=(cs, "CallStackGraph"), attrs={"nodes": nodes(), "root_index": IDX}), "root_index": None, "apply_whole_graph": False})
             if r.raised is None]
     chk.analysed_add("functions", ref)
+    if not rec and _SEM.get("depth") is True:
+        return          # not written as a recursive walk (e.g. an explicit stack): decided by the abstract run alone; the recurrence rules below have nothing to read
     if len(runs) != 1:
         chk.ob(rule, "_compute_depth: one path for a present root", None, where, found=len(runs))
         return
@@ -139,8 +148,11 @@ def _height(db, chk, cs):
     where = cs.loc(fn)
     IDX, K1, K2 = T.P("IDX"), T.P("K1"), T.P("K2")
 
+    seen_rec = []
+
     def hook(I, name, pos, kw, node):
         if _self_recursion(I, name):
+            seen_rec.append(1)
             return ("H", to_term(pos[0]))
         return NotImplemented
 
@@ -150,13 +162,15 @@ def _height(db, chk, cs):
         runs = [r for r in I.explore(ref, lambda I: {"self": Obj("self", cls=(cs, "CallStackGraph"), attrs={"nodes": nodes, "root_index": IDX}), "root_index": None, "apply_whole_graph": False})
                 if r.raised is None]
         tag = f"{'device' if dev == 'GPU' else 'host'} node with {len(kids)} children"
+        if kids and dev == "CPU" and not seen_rec and _SEM.get("height") is True:
+            continue          # not a recursive walk: the recurrence with abstracted children has nothing to read; decided by the abstract run
         if len(runs) != 1:
             chk.ob(rule, f"{tag}: single outcome", None, where, found=len(runs))
             continue
         h = to_term(runs[0].env["self"].attrs["nodes"][IDX].attrs.get("height"))
         check_term(chk, rule, f"{tag}: height", where, h, [want], "device activities have height 0, childless host nodes 1, otherwise 1 + the tallest child")
     chk.analysed_add("functions", ref)
-    chk.floor(rule, 3)
+    chk.floor(rule, 2)
 
 
 def _kernel_info(db, chk, cs, rule="C13.R1-kernel-info"):
